@@ -50,7 +50,10 @@ func (e *C10) Run(c *core.Ctx, idx int) {
 	r := c.Rng(idx)
 	// ---- build the stream
 	nOther := r.Range(0, 7)
-	nExif, nXMP := r.Pick(0, 1, 1, 1, 2), r.Pick(0, 1, 1, 2)
+	if r.Chance(1, 12) {
+		nOther = r.Range(20, 70) // long runs of small segments before and between the metadata
+	}
+	nExif, nXMP := r.Pick(0, 1, 1, 1, 2, 3), r.Pick(0, 1, 1, 2, 3)
 	var segs []gen.Seg
 	maxLen := 600
 	if r.Chance(1, 6) {
